@@ -60,3 +60,44 @@ def describe(c):
     return "%s wnorm=%s nullify=%s " % (c["kernel"], c["wnorm"], c["nullify"]) + " ".join(
         "[%s r=%s off=%d knorm=%s mix=%s]" % (w["orient"], w["table"] or w["r"], w["offset"], w["knorm"], w["mix"])
         for w in c["wins"])
+
+
+def timed_cfgs(V, seed, n):
+    rng = random.Random(seed)
+    out = []
+    for kernel in ("flat", "geometric"):
+        for orient in ("before", "after", "directional"):
+            for wnorm in (False, True):
+                out.append(cfg(kernel, wnorm, [win(orient, 2)]))
+    while len(out) < n:
+        kernel = rng.choice(["flat", "geometric"])
+        ws = [win(rng.choice(["before", "after", "directional"]), rng.randint(1, 3), rng.choice([0, 0, 1]),
+                  rng.random() < 0.3, rng.choice([1, 1, 2])) for _ in range(rng.choice([1, 1, 2]))]
+        out.append(cfg(kernel, rng.random() < 0.5, ws))
+    return out[:n]
+
+
+def multi_cfgs(V, seed, n):
+    rng = random.Random(seed)
+    out = []
+    for kernel in ("flat", "geometric"):
+        for orient in ("before", "after", "directional"):
+            for wnorm in (False, True):
+                out.append(cfg(kernel, wnorm, [win(orient, 1)]))
+    out.append(cfg("flat", False, [win("after", 2, offset=1)]))
+    out.append(cfg("geometric", False, [win("directional", 2, offset=1)]))
+    out.append(cfg("flat", False, [win("after", 2, table=[1, 2, 1][:V])]))
+    out.append(cfg("geometric", True, [win("before", 2, table=[2, 1, 2][:V])]))
+    while len(out) < n:
+        kernel = rng.choice(["flat", "geometric"])
+        ws = []
+        for _ in range(rng.choice([1, 1, 2])):
+            r = rng.randint(1, 2)
+            table = None
+            if rng.random() < 0.4:
+                table = [rng.randint(1, 2) for _ in range(V)]
+                r = max(table)
+            ws.append(win(rng.choice(["before", "after", "directional"]), r, rng.choice([0, 0, 1, 2]),
+                          rng.random() < 0.3, rng.choice([1, 1, 2]), table))
+        out.append(cfg(kernel, rng.random() < 0.5, ws))
+    return out[:n]
